@@ -24,5 +24,21 @@ int main()
 			report("Find_Root(x^9,[-1,3]) did not return", o, true);
 		close(fd[0]); close(fd[1]);
 	}
+	// same return path ('successive iterates closer than xAccuracy'), second input: a power law on a bracket spanning many decades
+	{
+		auto g = [](double x) { return std::pow(x, 7.0) - 1e-3; };
+		double acc = 1e-9, r = 0.0;
+		int fd[2]; if(pipe(fd)) return 3;
+		Outcome o = run_child([&]() { double v = Find_Root(g, 1e-6, 1e3, acc); if(write(fd[1], &v, sizeof v) < 0) _exit(7); });
+		if(o.returned_normally && read(fd[0], &r, sizeof r) == (ssize_t) sizeof r)
+		{
+			bool sign_change_near = (g(r - acc) <= 0.0 && g(r + acc) >= 0.0);
+			char what[160]; snprintf(what, sizeof what, "Find_Root(x^7-1e-3,[1e-6,1e3],acc=%g) = %.9g (root is 0.372759...)", acc, r);
+			report(what, o, !sign_change_near);
+		}
+		else
+			report("Find_Root(x^7-1e-3,[1e-6,1e3]) did not return", o, true);
+		close(fd[0]); close(fd[1]);
+	}
 	return finish();
 }
